@@ -2,13 +2,15 @@ import Pyunicorn.Model.Proto
 import Pyunicorn.Model.Similarity
 /-! Line-protocol driver for C09.
 
-Requests (`S`, `damp` row-major rational matrices, `ρ` as the decimal value of the IEEE-double
-bit pattern):
+Requests (`S`, `damp` row-major rational matrices):
 
-* `tfld <N> <S> <ρbits>`                      → threshold | `raise:IndexError`
-* `index <ρbits> <len>`                       → raw quantile index `int((1-ρ)*len)`
-* `hist <N> <directed> <nl> <S0> <damp> <init> <op,…>` with `init`/ops `T:<θ>`, `D:<ρbits>`,
-  `L:<0|1>` → one state per op (init included) `θ|A|n_links|density`, separated by `;`
+* `tfld <N> <S> <ρ>`                          → threshold | `raise:IndexError`
+* `index <ρ> <ρbits> <len>`                   → raw quantile index `int((1-ρ)*len)`, twice
+* `rn53 <x>`                                  → `x` rounded to binary64
+* `adj <N> <W> <θ>`                           → `_calculate_threshold_adjacency`
+* `hist <N> <directed> <nl> <S0> <damp> <init> <op,…> [<S1>@<S2>…]` with `init`/ops `T:<θ>`,
+  `D:<ρ>` (exact rational value of the double), `L:<0|1>`, `R:<k>` (regenerate with the k-th
+  extra matrix) → one state per op (init included) `θ|A|n_links|density`, separated by `;`
 -/
 open Pyunicorn Pyunicorn.Proto Pyunicorn.Similarity
 
@@ -20,11 +22,13 @@ def showState (s : Net) : String :=
     | none => "raise:ZeroDivision"
   s!"{showRat s.θ}|{showBools s.A}|{s.nLinks}|{d}"
 
-def parseOp (N : Nat) (tok : String) : Option Op :=
+def parseOp (N : Nat) (mats : List Sim) (tok : String) : Option Op :=
   match tok.splitOn ":" with
   | ["T", v] => (rat? v).map Op.thr
-  | ["D", v] => v.toNat?.map fun b => Op.dens (floatIndex b.toUInt64 (N * N - N))
+  -- the quantile index as CPython evaluates it: exact rational model of the two IEEE roundings
+  | ["D", v] => (rat? v).map fun ρ => Op.dens (ieeeIndex ρ (N * N - N))
   | ["L", v] => v.toNat?.map fun b => Op.nl (b != 0)
+  | ["R", v] => v.toNat?.bind fun k => (mats[k]?).map Op.resim
   | _ => none
 
 /-- states after each op; stops with the error name when a call raises -/
@@ -41,14 +45,31 @@ def answer (toks : List String) : String :=
   match toks with
   | ["tfld", n, s, r] =>
     let N := n.toNat!
-    match thresholdFromIndex (matFn (ratMat s)) N (floatIndex r.toNat!.toUInt64 (N * N - N)) with
-    | some θ => showRat θ
-    | none => "raise:IndexError"
-  | ["index", r, len] => toString (floatIndex r.toNat!.toUInt64 len.toNat!)
-  | ["hist", n, d, nl, s0, dm, init, ops] =>
+    match (rat? r).bind fun ρ =>
+        some (thresholdFromIndex (matFn (ratMat s)) N (ieeeIndex ρ (N * N - N))) with
+    | some (some θ) => showRat θ
+    | some none => "raise:IndexError"
+    | none => "bad-request"
+  -- both evaluations of `int((1-ρ)*len)`: rational IEEE model | Lean `Float`
+  | ["index", r, rbits, len] =>
+    match rat? r with
+    | some ρ => s!"{ieeeIndex ρ len.toNat!}|{floatIndex rbits.toNat!.toUInt64 len.toNat!}"
+    | none => "bad-request"
+  | ["rn53", x] => match rat? x with
+    | some v => showRat (rn53 v)
+    | none => "bad-request"
+  -- `_calculate_threshold_adjacency(W, θ)` on an arbitrary (signed) matrix
+  | ["adj", n, w, t] =>
+    match rat? t with
+    | some θ => showBools (thresholdAdjacency (matFn (ratMat w)) θ n.toNat!)
+    | none => "bad-request"
+  | "hist" :: n :: d :: nl :: s0 :: dm :: init :: ops :: rest =>
     let N := n.toNat!
+    let mats := match rest with
+      | [m] => (splitTok m "@").map fun t => matFn (ratMat t)
+      | _ => []
     let b := blank N (d != "0") (matFn (ratMat s0)) (matFn (ratMat dm)) (nl != "0")
-    match ((splitTok init ",") ++ (splitTok ops ",")).mapM (parseOp N) with
+    match ((splitTok init ",") ++ (splitTok ops ",")).mapM (parseOp N mats) with
     | none => "bad-request"
     | some os => join (trace b os) ";"
   | _ => "bad-request"
